@@ -1,4 +1,5 @@
 // Plan executor.  See exec.h and DESIGN.md §3, §5.
+#include <climits>
 #include "exec.h"
 #include "backend.h"
 #include "yaep.h"
@@ -85,7 +86,10 @@ struct CbCtx {
   std::vector<void *> feed_bufs; // every buffer handed out (freed after the call)
   long callbacks = 0;
   int announce_fd = -1;
+  int end_code = -1;        // what the token reader returns at the end of the input (any negative value)
+  uint64_t end_salt = 0;
 } C;
+static const int kEndCodes[] = {-1, -1, -2, -3, -1000, INT_MIN};
 
 char *feed_str(const std::string &s) {
   char *p = (char *)::malloc(s.size() + 1);
@@ -143,7 +147,7 @@ static const char *cb_read_rule(const char ***rhs, const char **anode, int *cost
     C.feed_bufs.push_back(t);
     g_feed_len.push_back({t, sizeof(int) * (r.transl.size() + 1)});
     for (size_t i = 0; i < r.transl.size(); i++) t[i] = r.transl[i] == -2 ? YAEP_NIL_TRANSLATION_NUMBER : r.transl[i];
-    t[r.transl.size()] = -1;
+    t[r.transl.size()] = kEndCodes[(C.end_salt + C.ri * 7) % 6]; // any negative value ends the array
     *transl = t;
   } else
     *transl = nullptr;
@@ -158,7 +162,7 @@ static int cb_read_token(void **attr) {
   if ((long)C.tpos == C.eof_at || C.tpos >= C.toks.size()) {
     *attr = nullptr;
     C.eof_calls++;
-    return -1;
+    return C.end_code; // any negative value ends the input
   }
   size_t i = C.tpos++;
   *attr = &C.attr_cells[i < 4096 ? i : 4095];
@@ -700,6 +704,7 @@ struct Exec {
     int rc = -999;
     char *desc = nullptr;
     C.g = &g; C.ti = C.ri = 0;
+    C.end_salt = (plan.cfg.salt >> 24) + (uint64_t)cur_op;
     if (g.text) {
       desc = (char *)::malloc(g.desc.size() + 1);
       memcpy(desc, g.desc.c_str(), g.desc.size() + 1);
@@ -809,6 +814,7 @@ struct Exec {
     C.n_alloc = C.n_free = C.n_free_null = 0;
     C.tviol.clear();
     C.poison = plan.cfg.poison;
+    C.end_code = kEndCodes[((plan.cfg.salt >> 20) + (uint64_t)cur_op * 5) % 6];
     vs_parse_alloc_t pa = nullptr;
     vs_parse_free_t pf = nullptr;
     switch (op.alloc) {
